@@ -165,5 +165,5 @@ ConformsDM == ~stuck => obs.dm = dm
 ConformsGV == ~stuck => obs.gv = gv
 ConformsSCD == ~stuck => obs.scd = scd
 ConformsCopy == ~stuck => obs.cp = cp
-ConformsHeld == ~stuck => obs.held = held
+ConformsHeld == ~stuck => obs.held = NormHeld(held)
 =============================================================================
